@@ -48,6 +48,7 @@ FIXED = [
     ('D34', ['C01', 'C04'], 'spmc bulk_pop works out its range after it has locked the head', 'a stealer stalled between reading head / push index and its CAS in bulk_pop wins the CAS after the head block was freed and re-allocated at the same address with the head back at the same index (ABA) and claims beyond the owner\'s tail: it sleeps in the "wait there is enough data" loop holding the tasks in front of the unpublished slots, the owner spins on a queue that is neither empty nor poppable; with no more work for that worker the coroutines in the claimed slots never run (spawnp: "watchdog 25s without quiescence (threads \'SRSS\')", 13 of 16 shards with a stall at SPMC_BULK_LOADED, once without any stall in joinrace)'),
     ('D35', ['C10', 'C11', 'C05', 'C12', 'C06'], 'waking past waiters that have given up no longer recurses', 'Semphore::post / Condvar::notify_one / SyncFlag::fire / Mutex and RwLock unlock pass the permit, notification or lock past every waiter that has given up (timed-out wait_timeout, cancelled lock) by calling themselves again, one stack frame per such waiter: after ~700 of them in a row the operation overflows the default coroutine stack ("stack overflow detected, size=4096"), the coroutine dies half way, the permit is lost (Semphore { cnt: -2338 } after a post), the mutex stays locked. Seen first as a recv_timeout(2 ms) poller whose stale entries a stalled sender could not get past; scenario `stale`: 6 of 6 runs on the unrepaired tree'),
     ('D36', ['C17', 'C18', 'C19'], 'an io timer entry is unlinked by its selector thread only', 'EventData::fast_schedule (called by every subscribe when the event arrived between EAGAIN and the registration, on whatever worker runs the coroutine) and schedule unlinked the finished operation\'s timer entry with Entry::remove - a consumer-side operation of the list - although the list is run by the selector thread of fd % workers: beside that thread\'s pop_if the links break ("assertion failed: (*tail).value.is_none()" at mpsc_list_v1.rs:247), the selector thread dies and its sockets stay suspended with data in the kernel (thorough C17: "missed readiness edge: reader0 suspended in read(fd 4) while the kernel reports it readable (9854 bytes readable)", once in 1.2 M executions). The timer-list contract monitor (hook IO_TIMER_UNLINK vs the thread seen at EP_BEFORE_TIMERS) shows the cross-thread unlink itself within 400-1 200 executions of iot / io'),
+    ('D37', ['C14', 'C16', 'C13'], 'a cqueue joins every select coroutine, also after one of them has panicked', 'after check_panic has re-thrown the panic of one select coroutine it returns early for every later Done event without joining that coroutine; the Done event comes from the drop of the EventSender, the coroutine\'s captures are released after it: cqueue::scope / select! are left while a select coroutine is still dropping captures that borrow the enclosing frame ("cqueue scope was left while 1 select coroutine(s) were still releasing what they had captured", within 900-7 700 executions of cq on 1, 2 and 4 workers). Pointed out by a seeding sub-agent whose first demo failed on the unmodified tree'),
 ]
 
 KNOWN = [
